@@ -196,6 +196,7 @@ pub struct ExploreOut {
 pub fn explore_schedules<T: Send + 'static>(
     bound: usize,
     max_schedules: u64,
+    deadline: Option<std::time::Instant>,
     mk: &mut dyn FnMut() -> Vec<Box<dyn FnOnce() -> T + Send>>,
     check: &mut dyn FnMut(&RunResult<T>, &[usize]) -> bool,
 ) -> (ExploreOut, bool) {
@@ -203,7 +204,7 @@ pub fn explore_schedules<T: Send + 'static>(
     let mut stack: Vec<Vec<usize>> = vec![vec![]];
     let mut complete = true;
     while let Some(prefix) = stack.pop() {
-        if out.schedules >= max_schedules {
+        if out.schedules >= max_schedules || deadline.map_or(false, |d| out.schedules > 0 && std::time::Instant::now() > d) {
             complete = false;
             break;
         }
